@@ -711,7 +711,9 @@ def run(ctx):
     R_TAUS = [np.inf, np.inf, 0.1, 0.05, 0.3, 0.15, 1.0, 0.35]
     reqs, impl = [], []
     n_round = 0
-    for _ in range(2500 if quick else 40000):
+    n_stream = 2500 if quick else 40000
+    n_dense = 1000 if quick else 12000
+    for it in range(n_stream + n_dense):
         T = rng.choice([5, 6, 7, 8, 9, 10, 12, 14])
         x, y = gen_pair(rng, T)
         if rng.random() < 0.5:
@@ -720,6 +722,22 @@ def run(ctx):
             y = [int(v or rng.random() < 0.5) for v in y]
         ts1, kind = gen_rounding_ts(T)
         tm, lag = rng.choice(R_TAUS), rng.choice(R_LAGS)
+        if it >= n_stream:
+            # dense series on a tenths / cumulative grid, unbounded window, lag != 0: many decisions
+            # `2*(x - y) <= min gap` are ties up to the last bit, decided by the order of the
+            # roundings (own mutation M2: np.diff taken before the lag is added)
+            T = rng.choice([8, 10, 12, 14])
+            x = [int(rng.random() < 0.6) for _ in range(T)]
+            y = [int(rng.random() < 0.6) for _ in range(T)]
+            kind = "dense-tenths"
+            if rng.random() < 0.3:
+                kind, t, ts1 = "dense-cumsum", 0.0, []
+                for _ in range(T):
+                    ts1.append(t)
+                    t += rng.choice([0.1, 0.2, 0.3, 0.7, 1.1])
+            else:
+                ts1 = [0.1 * i for i in range(T)]
+            tm, lag = np.inf, rng.choice([0.1, -0.3, 1.0 / 3.0, 0.7, 1e-3, -0.05])
         if kind == "index":
             tm, lag = rng.choice([np.inf, 1.0, 1.5, 0.7]), rng.choice([0.1, -0.3, 1.0 / 3.0, 0.7, 1.1])
             n1 = n2 = None
